@@ -18,12 +18,18 @@ func c14Mut(r *rng, id string) {
 	if v == 0 {
 		proto = 1
 	}
-	src := []string{"genuine1", "genuine1", "genuine2", "foreign", "removed", "otherlabel", "plain", "skipown", "skipunlabelled"}[r.intn(9)]
+	k4 := mkKey(r, 16)
+	src := []string{"genuine1", "genuine1", "genuine2", "foreign", "removed", "otherlabel", "plain", "skipown", "skipunlabelled",
+		"removedmid", "keptlast", "stallremove"}[r.intn(12)]
 	skip := strings.HasPrefix(src, "skip")
 	if skip && label == "" {
 		label = "blue"
 	}
-	rcv, err := newCnode(ccfg{label: label, key: k1, keys: [][]byte{k2}, verifyIn: true, verifyOut: true, name: "R", proto: proto, skipIn: skip})
+	ring := [][]byte{k2}
+	if src == "removedmid" || src == "keptlast" {
+		ring = [][]byte{k2, k4} // k2 sits in the middle of [k1 k2 k4]
+	}
+	rcv, err := newCnode(ccfg{label: label, key: k1, keys: ring, verifyIn: true, verifyOut: true, name: "R", proto: proto, skipIn: skip})
 	if err != nil {
 		return
 	}
@@ -34,8 +40,10 @@ func c14Mut(r *rng, id string) {
 		sc.key = k2
 	case "foreign":
 		sc.key = k3
-	case "removed":
+	case "removed", "removedmid", "stallremove":
 		sc.key = k2
+	case "keptlast":
+		sc.key = k4
 	case "otherlabel":
 		sc.label = label + "x"
 	case "plain":
@@ -48,7 +56,7 @@ func c14Mut(r *rng, id string) {
 		return
 	}
 	defer snd.m.Shutdown()
-	if src == "removed" {
+	if src == "removed" || src == "removedmid" || src == "keptlast" {
 		rcv.kr.RemoveKey(k2)
 	}
 	// payload: sometimes engineered so that the sealed plaintext ([8] ++ payload) ends in valid PKCS7 padding
@@ -58,6 +66,9 @@ func c14Mut(r *rng, id string) {
 		payload[n-1] = 1
 	}
 	path := []string{"pkt", "str"}[r.intn(2)]
+	if src == "stallremove" {
+		path = "str" // the key is removed while the stream is stalled between its header and its body
+	}
 	to := &ml.Node{Name: "R", Addr: []byte{10, 0, 0, 1}, Port: 7946, PMax: 2}
 	var base []byte
 	if path == "pkt" {
@@ -104,7 +115,16 @@ func c14Mut(r *rng, id string) {
 						pan = true
 					}
 				}()
-				ml.VerifHandleConn(rcv.m, newFragConn(in, nil))
+				fc := newFragConn(in, nil)
+				if src == "stallremove" && len(in) > verOff {
+					fc = newFragConn(in, []int{verOff})
+					fc.onFrag = func(i int) {
+						if i == 1 {
+							rcv.kr.RemoveKey(k2)
+						}
+					}
+				}
+				ml.VerifHandleConn(rcv.m, fc)
 			}()
 		}
 		got := rcv.del.take()
